@@ -26,6 +26,8 @@ TECHNIQUE += "; operand coverage of the undefined-rule analysis over every model
 LEVEL_TEXT += ' Added clauses: rules referenced from any operand (incl. join separators) are seen by the undefined-rule check; an empty match ends the skip loop; converters of matched or grammar text cannot leak ValueError/OverflowError/SyntaxError/re.error/UnicodeDecodeError; rendering a failure reads no possibly-unbound local.'
 TECHNIQUE += '; line index (= C12.R3); include-cycle contract of Grammar.initialize on stand-in grammars; guard rule for parse-time converters (int of matched text, literal_eval of constants); totality of regexpp (= C02.R11)'
 LEVEL_TEXT += " Added clauses: line/column/source line agree with the position (C12.R3); an include cycle is a GrammarError; digit runs beyond Python's limit and constants with unhashable keys fail the match; every valid pattern can be written into messages and generated code."
+TECHNIQUE += '; termination of every eat entry (_eat_regex_list); fixpoint iteration of constant() under evaluators that never converge (= C17.R7)'
+LEVEL_TEXT += ' Added clauses: comment-eating loops end on empty matches; deep evaluation of a constant ends.'
 LEVEL_NOTE = 'Trusted: the exception hierarchy of tatsu/exceptions.py; int()/float() raise ValueError on an empty string.'
 EXPLANATION = ('Static analysis of /repo sources, TatSu not imported. Raise sites are enumerated and classified through the static '
                'class table; scanner/consumer pairs of tatsu/input/cursor.py are analysed with the path engine and the '
